@@ -228,7 +228,25 @@ def handleNames (d : Json) : Json :=
   | .ok j => j
   | .error e => Json.mkObj [("error", e)]
 
+/-- Round 10: `_make_dummy_subgraph`. `{"dummy": {"key": "body", "types": [ty…], "res": [ty…]}}`. -/
+def handleDummy (d : Json) : Json :=
+  match (do
+    let key ← d.getObjValAs? String "key"
+    let tys ← ((d.getObjValAs? (Array Json) "types").toOption.getD #[]).toList.mapM parseTy
+    let res ← ((d.getObjValAs? (Array Json) "res").toOption.getD #[]).toList.mapM parseTy
+    let g : SubgraphNames.DummyGraph Ty := SubgraphNames.dummyOfSubgraph key tys res
+    let vis (xs : List (String × Ty)) : Json :=
+      Json.arr (xs.map (fun (p : String × Ty) => Json.arr #[toJson p.1, tyToJson p.2])).toArray
+    return Json.mkObj [("name", toJson g.name), ("inputs", vis g.inputs), ("outputs", vis g.outputs),
+      ("valueInfos", vis g.valueInfos),
+      ("nodes", Json.arr (g.nodes.map (fun (p : String × String) => Json.arr #[toJson p.1, toJson p.2])).toArray)]) with
+  | .ok j => j
+  | .error e => Json.mkObj [("error", e)]
+
 def handle (req : Json) : Json :=
+  match req.getObjVal? "dummy" with
+  | .ok d => handleDummy d
+  | .error _ =>
   match req.getObjVal? "names" with
   | .ok d => handleNames d
   | .error _ =>
